@@ -16,7 +16,7 @@ from ..digest import Trace, digest
 PROP = 'C13'
 ENGINE = 'iosim'
 HASH_CLASSES = 3
-RUNS = {'quick': 4000, 'thorough': 150000}
+RUNS = {'quick': 8000, 'thorough': 150000}
 RUN_TIMEOUT = 30
 DETERMINISM_RUNS = 24
 RULE = ("Each run = seeded history of 2-12 save_data/read_data calls on one "
